@@ -1,0 +1,239 @@
+//! Verification hooks. Compiled only with `--cfg flurry_verif`; never part of a normal build.
+//!
+//! Every hook is a *pre*-event: it is called immediately before the access it describes, on the
+//! thread that performs it. A harness installs a [`Hooks`] implementation with [`install`];
+//! without one (or on threads the harness does not know) every hook is a no-op.
+#![allow(missing_docs, missing_debug_implementations, unreachable_pub, dead_code)]
+
+use std::cell::Cell;
+use std::panic::Location;
+use std::sync::atomic::{AtomicBool, Ordering};
+use std::sync::OnceLock;
+
+/// What is about to happen.
+#[derive(Clone, Copy, Debug, PartialEq, Eq, Hash)]
+pub enum Kind {
+    /// `Atomic::load` / raw atomic load
+    Load,
+    /// `Atomic::store` / raw atomic store (`a` = new value)
+    Store,
+    /// `Atomic::swap` (`a` = new value)
+    Swap,
+    /// compare-exchange (`a` = expected, `b` = new)
+    Cas,
+    /// `fetch_add` / `fetch_sub` (`a` = signed delta as usize)
+    FetchAdd,
+    /// `Atomic::clone` (a relaxed load used when copying a node)
+    CloneLoad,
+    /// `Shared::boxed` returned `addr` (this one is a *post*-event: the allocation exists)
+    Alloc,
+    /// `Shared::deref` / `Shared::as_ref` of `addr`
+    Deref,
+    /// `Shared::into_box` / `Atomic::into_box`: ownership of `addr` is taken back
+    IntoBox,
+    /// `retire_shared(addr)` / `defer_retire(addr)`; `b` = 1 if the guard is protected
+    Retire,
+    /// about to call `lock()` on the mutex at `addr`
+    BeforeLock,
+    /// the scope that locked the mutex at `addr` has ended (the mutex was released earlier or now)
+    Unlock,
+    /// about to call `park()`
+    BeforePark,
+    /// about to call `unpark()` on the thread whose `ThreadId` hash is `a`
+    Unpark,
+    /// about to call `yield_now()` / `spin_loop()` (a busy-wait iteration)
+    Spin,
+    /// a point where the following code may or may not perform the named access (used where the
+    /// access sits inside a short-circuit condition)
+    Yield,
+}
+
+/// One hook event.
+#[derive(Clone, Copy, Debug)]
+pub struct Event {
+    pub kind: Kind,
+    /// address of the atomic cell, mutex or object concerned
+    pub addr: usize,
+    pub a: usize,
+    pub b: usize,
+    /// success / only ordering
+    pub ord: Option<Ordering>,
+    /// failure ordering of a compare-exchange
+    pub ord_fail: Option<Ordering>,
+    /// `type_name` of the pointee for `Atomic<T>` / `Shared<T>` events, or the field name
+    /// (`"size_ctl"`, `"transfer_index"`, `"count"`, `"lock_state"`) for raw atomics
+    pub what: &'static str,
+    /// size in bytes of the allocation (Alloc only)
+    pub size: usize,
+    /// 1 if the guard used for a load is protected, 0 if unprotected, 2 if no guard is involved
+    pub guarded: u8,
+    /// source location of the *caller* (wrappers are `#[track_caller]`)
+    pub loc: &'static Location<'static>,
+}
+
+/// Implemented by the harness.
+pub trait Hooks: Sync {
+    fn event(&self, e: &Event);
+}
+
+static HOOKS: OnceLock<&'static dyn Hooks> = OnceLock::new();
+static ENABLED: AtomicBool = AtomicBool::new(false);
+
+thread_local! {
+    static QUIET: Cell<u32> = const { Cell::new(0) };
+}
+
+/// Install the process-wide hook receiver (once).
+pub fn install(h: &'static dyn Hooks) {
+    let _ = HOOKS.set(h);
+    ENABLED.store(true, Ordering::SeqCst);
+}
+
+/// Run `f` with hooks suppressed on this thread (used by the inspector).
+pub fn quiet<R>(f: impl FnOnce() -> R) -> R {
+    QUIET.with(|q| q.set(q.get() + 1));
+    struct Reset;
+    impl Drop for Reset {
+        fn drop(&mut self) {
+            QUIET.with(|q| q.set(q.get() - 1));
+        }
+    }
+    let _r = Reset;
+    f()
+}
+
+#[inline]
+#[track_caller]
+pub(crate) fn emit(
+    kind: Kind,
+    addr: usize,
+    a: usize,
+    b: usize,
+    ord: Option<Ordering>,
+    ord_fail: Option<Ordering>,
+    what: &'static str,
+    size: usize,
+    guarded: u8,
+) {
+    if !ENABLED.load(Ordering::Relaxed) {
+        return;
+    }
+    if QUIET.with(|q| q.get()) != 0 {
+        return;
+    }
+    if let Some(h) = HOOKS.get() {
+        h.event(&Event {
+            kind,
+            addr,
+            a,
+            b,
+            ord,
+            ord_fail,
+            what,
+            size,
+            guarded,
+            loc: Location::caller(),
+        });
+    }
+}
+
+/// Hook for `Atomic<T>` / `Shared<T>` operations.
+#[inline]
+#[track_caller]
+pub(crate) fn atomic<T>(kind: Kind, addr: usize, a: usize, b: usize, ord: Option<Ordering>, ord_fail: Option<Ordering>, guarded: u8) {
+    emit(kind, addr, a, b, ord, ord_fail, std::any::type_name::<T>(), std::mem::size_of::<T>(), guarded);
+}
+
+/// Hook for the raw atomics (`size_ctl`, `transfer_index`, `count`, `lock_state`).
+#[inline]
+#[track_caller]
+pub(crate) fn raw<A>(kind: Kind, cell: &A, a: isize, b: isize, what: &'static str) {
+    emit(kind, cell as *const A as usize, a as usize, b as usize, None, None, what, 0, 2);
+}
+
+/// 1 = protected guard, 0 = `Guard::unprotected()`
+#[inline]
+pub(crate) fn guard_flag(g: &seize::Guard<'_>) -> u8 {
+    if g.collector().is_some() {
+        1
+    } else {
+        0
+    }
+}
+
+#[inline]
+#[track_caller]
+pub(crate) fn spin() {
+    emit(Kind::Spin, 0, 0, 0, None, None, "", 0, 2);
+}
+
+#[inline]
+#[track_caller]
+pub(crate) fn before_park() {
+    emit(Kind::BeforePark, 0, thread_key(&std::thread::current()), 0, None, None, "", 0, 2);
+}
+
+#[inline]
+#[track_caller]
+pub(crate) fn on_unpark(t: &std::thread::Thread) {
+    emit(Kind::Unpark, 0, thread_key(t), 0, None, None, "", 0, 2);
+}
+
+/// A stable key for a thread handle (what `Unpark`/`BeforePark` events carry in `a`).
+pub fn thread_key(t: &std::thread::Thread) -> usize {
+    use std::hash::{Hash, Hasher};
+    let mut h = std::collections::hash_map::DefaultHasher::new();
+    t.id().hash(&mut h);
+    h.finish() as usize
+}
+
+/// Declared immediately before a `lock()` call: emits `BeforeLock` now and `Unlock` when the
+/// enclosing scope ends (it is declared before the `MutexGuard`, hence dropped after it).
+pub(crate) struct LockScope {
+    addr: usize,
+    loc: &'static Location<'static>,
+}
+
+impl LockScope {
+    #[inline]
+    #[track_caller]
+    pub(crate) fn new(m: &parking_lot::Mutex<()>) -> Self {
+        let addr = m as *const _ as usize;
+        emit(Kind::BeforeLock, addr, 0, 0, None, None, "lock", 0, 2);
+        LockScope {
+            addr,
+            loc: Location::caller(),
+        }
+    }
+}
+
+impl Drop for LockScope {
+    fn drop(&mut self) {
+        if !ENABLED.load(Ordering::Relaxed) || QUIET.with(|q| q.get()) != 0 {
+            return;
+        }
+        if let Some(h) = HOOKS.get() {
+            h.event(&Event {
+                kind: Kind::Unlock,
+                addr: self.addr,
+                a: 0,
+                b: 0,
+                ord: None,
+                ord_fail: None,
+                what: "lock",
+                size: 0,
+                guarded: 2,
+                loc: self.loc,
+            });
+        }
+    }
+}
+
+/// Whether the `parking_lot::Mutex<()>` at `addr` is currently locked.
+///
+/// # Safety
+/// `addr` must be the address of a live `parking_lot::Mutex<()>` (as reported by a `BeforeLock`
+/// event whose object has not been freed).
+pub unsafe fn mutex_is_locked(addr: usize) -> bool {
+    (*(addr as *const parking_lot::Mutex<()>)).is_locked()
+}
